@@ -179,6 +179,7 @@ class WaitUntilDecoratorManager(DecoratorManager):
         super().__init__(ast_ctx, ast_ctx.name)
         self.kwargs = kwargs
         self._future: asyncio.Future[DispatchData] = self.hass.loop.create_future()
+        self._exhausted: set[Decorator] = set()
         self.timeout_decorator = None
         if (timeout := kwargs.get("timeout")) is not None:
             to_dec = DecoratorRegistry._decorators.get("time_trigger")
@@ -194,6 +195,13 @@ class WaitUntilDecoratorManager(DecoratorManager):
             return
         await self.stop()
         self._future.set_result(data)
+
+    async def trigger_exhausted(self, decorator: Decorator) -> None:
+        """Note that a (time) trigger has no future occurrence; give up once none of them has."""
+        self._exhausted.add(decorator)
+        if all(dec in self._exhausted for dec in self.get_decorators()):
+            # only time triggers without a future time: nothing to wait for
+            await self.dispatch(DispatchData({"trigger_type": "none"}, trigger=decorator))
 
     async def handle_exception(self, exc: Exception) -> None:
         """Propagate an evaluation exception to the waiting caller."""
